@@ -6,6 +6,7 @@ import (
 	"encoding/json"
 	"fmt"
 	"io"
+	"math"
 	"sort"
 	"strconv"
 
@@ -2082,7 +2083,7 @@ func (r *Resolvable) walkInteger(i *Integer, value *astjson.Value) bool {
 		r.addNonNullableFieldError(i.Path, parent)
 		return r.err()
 	}
-	if value.Type() != astjson.TypeNumber {
+	if value.Type() != astjson.TypeNumber || !numberIsIntegral(value) {
 		r.marshalBuf = value.MarshalTo(r.marshalBuf[:0])
 		r.addError(fmt.Sprintf("Int cannot represent non-integer value: \"%s\"", string(r.marshalBuf)), i.Path)
 		return r.err()
@@ -2091,6 +2092,12 @@ func (r *Resolvable) walkInteger(i *Integer, value *astjson.Value) bool {
 		r.renderScalarFieldValue(value, i.Nullable)
 	}
 	return false
+}
+
+// numberIsIntegral reports whether a JSON number has an integral value (1, 1.0 and 1e3 do, 1.5 does not).
+func numberIsIntegral(value *astjson.Value) bool {
+	f, err := value.Float64()
+	return err == nil && f == math.Trunc(f) && !math.IsInf(f, 0)
 }
 
 func (r *Resolvable) walkFloat(f *Float, value *astjson.Value) bool {
